@@ -59,3 +59,89 @@ fn c15_bitops_n2() {
     assert!(v2(&(x & y)) == v2(&x) & v2(&y));
     assert!(v2(&(x | y)) == v2(&x) | v2(&y));
 }
+
+// ---- N = 3: shifts by whole-limb multiples and beyond (192-bit oracle written with limbs)
+fn any3() -> BigInt<3> { BigInt([kani::any(), kani::any(), kani::any()]) }
+fn bit3(x: &BigInt<3>, i: u32) -> bool { if i >= 192 { false } else { (x.0[(i / 64) as usize] >> (i % 64)) & 1 == 1 } }
+
+#[kani::proof]
+#[kani::unwind(5)]
+fn c15_shl_n3() {
+    let x = any3();
+    let s: u32 = kani::any();
+    let mut y = x;
+    y <<= s;
+    let i: u32 = kani::any();
+    kani::assume(i < 192);
+    let e = if s >= 192 || i < s { false } else { bit3(&x, i - s) };
+    assert!(bit3(&y, i) == e);
+}
+#[kani::proof]
+#[kani::unwind(5)]
+fn c15_shr_n3() {
+    let x = any3();
+    let s: u32 = kani::any();
+    let mut y = x;
+    y >>= s;
+    let i: u32 = kani::any();
+    kani::assume(i < 192);
+    let e = if s >= 192 || (i as u64 + s as u64) >= 192 { false } else { bit3(&x, i + s) };
+    assert!(bit3(&y, i) == e);
+}
+#[kani::proof]
+#[kani::unwind(5)]
+fn c15_div2_mul2_n3() {
+    let x = any3();
+    let mut y = x;
+    y.div2();
+    let i: u32 = kani::any();
+    kani::assume(i < 192);
+    assert!(bit3(&y, i) == bit3(&x, i + 1));
+    let mut z = x;
+    let c = z.mul2();
+    assert!(c == bit3(&x, 191));
+    assert!(bit3(&z, i) == (i > 0 && bit3(&x, i - 1)));
+}
+#[kani::proof]
+#[kani::unwind(5)]
+fn c15_num_bits_bytes_n3() {
+    let x = any3();
+    let nb = x.num_bits();
+    assert!(nb <= 192);
+    if nb > 0 { assert!(bit3(&x, nb - 1)); }
+    let i: u32 = kani::any();
+    kani::assume(i < 192);
+    if i >= nb { assert!(!bit3(&x, i)); }
+    // bytes, both endiannesses
+    let le = x.to_bytes_le();
+    let be = x.to_bytes_be();
+    assert!(le.len() == 24 && be.len() == 24);
+    let k: usize = kani::any();
+    kani::assume(k < 24);
+    let e = (x.0[k / 8] >> (8 * (k % 8))) as u8;
+    assert!(le[k] == e && be[23 - k] == e);
+}
+
+/// NAF / relaxed NAF of every 2-limb value whose top limb is < 4 (bounded: 66 digits), reconstruct the value and obey the digit rules
+#[kani::proof]
+#[kani::unwind(72)]
+fn c15_find_naf_n2_small_top() {
+    let lo: u64 = kani::any();
+    let hi: u64 = kani::any();
+    kani::assume(hi < 2);
+    let v = [lo, hi];
+    let d = ark_ff::biginteger::arithmetic::find_naf(&v);
+    assert!(d.len() <= 67);
+    let mut acc: i128 = 0;
+    let mut i = d.len();
+    let mut prev_nonzero = false;
+    while i > 0 {
+        i -= 1;
+        let z = d[i];
+        assert!(z == 0 || z == 1 || z == -1);
+        assert!(!(prev_nonzero && z != 0));
+        prev_nonzero = z != 0;
+        acc = acc * 2 + z as i128;
+    }
+    assert!(acc == ((hi as i128) << 64) + lo as i128);
+}
